@@ -98,7 +98,15 @@ class _PooledTransport:
     pool-specific attributes (``shm``, ``_stream_opened``).
     """
 
-    __slots__ = ("_inner", "_last_stream_session", "_pool", "_returned", "_shm", "_stream_opened")
+    __slots__ = (
+        "_inner",
+        "_last_stream_session",
+        "_pool",
+        "_returned",
+        "_shm",
+        "_stream_leaked",
+        "_stream_opened",
+    )
 
     def __init__(self, inner: SubprocessTransport, pool: WorkerPool, shm: ShmSegment | None = None) -> None:
         """Initialize wrapping *inner* transport, owned by *pool*."""
@@ -107,6 +115,7 @@ class _PooledTransport:
         self._returned = False
         self._shm = shm
         self._stream_opened = False
+        self._stream_leaked = False
         self._last_stream_session: StreamSession | None = None
 
     @property
@@ -116,7 +125,17 @@ class _PooledTransport:
 
     @property
     def writer(self) -> IOBase:
-        """Writable binary stream (delegated to inner transport)."""
+        """Writable binary stream (delegated to inner transport).
+
+        The client proxy fetches it once per call, to send the request (a
+        session keeps the stream it was given).  Only the latest session is
+        tracked, so a request sent while that one has not been read to its end
+        interleaves with it on the wire, and closing a later stream says
+        nothing about the earlier one: remember that it happened.
+        """
+        last = self._last_stream_session
+        if last is not None and not last._drained:
+            self._stream_leaked = True
         return self._inner.writer
 
     @property
@@ -135,10 +154,11 @@ class _PooledTransport:
             return
         self._returned = True
         self._shm = None
-        # A stream is "abandoned" if it was opened but not cleanly closed
-        stream_abandoned = self._stream_opened and (
-            self._last_stream_session is None or not self._last_stream_session._closed
-        )
+        # A stream is "abandoned" if it was opened but not read to its end:
+        # never closed, closed without reaching the EOS marker (transport error,
+        # on_log raising during the drain), or interleaved with a later call.
+        last = self._last_stream_session
+        stream_abandoned = self._stream_opened and (self._stream_leaked or last is None or not last._drained)
         self._last_stream_session = None
         try:
             self._pool._return_worker(self._inner, stream_abandoned)
